@@ -58,6 +58,11 @@ func (m *Machine) unsupported(msg string) {
 	where := ""
 	if m.fr != nil {
 		where = " in " + m.fr.fn.String() + " @" + m.prog.Fset.Position(m.fr.pos).String()
+		n := 0
+		for f := m.fr.caller; f != nil && n < 6; f = f.caller {
+			where += " <- " + f.fn.Name()
+			n++
+		}
 	}
 	panic(pathEnd{"unsupported", msg + where})
 }
